@@ -1,4 +1,5 @@
 import RsModel.Lemmas.EqHash
+import RsModel.Lemmas.HashInj
 /-!
 # C20 — hashes separate observably different sources and are reproducible
 Statements are about the hasher *input* (`calls`): two different inputs hash differently up to
@@ -58,5 +59,80 @@ theorem c20_concat_child (fxh : List HCall → Nat) (pre : List Src) (a b : Src)
   intro e
   have e1 := List.append_cancel_left e
   exact h (List.append_inj_left e1 hlen)
+
+
+/-! ## one edit, at any depth -/
+
+/-- **context theorem**: whatever surrounds the edited node — any nesting of ConcatSource (any position among its children),
+ReplaceSource and CachedSource, to any depth — if the edit changes the hasher input of the node, it changes the hasher input
+of the whole tree.  `fxh` is the memoising hasher of CachedSource; "no collisions" is the property's own proviso. -/
+theorem c20_one_edit (fxh : List HCall → Nat) (hinj : ∀ x y, fxh x = fxh y → x = y) (c : Ctx) (a b : Src)
+    (h : a.calls fxh ≠ b.calls fxh) : (c.fill a).calls fxh ≠ (c.fill b).calls fxh :=
+  fun e => h (ctx_calls_inj fxh hinj a b c e)
+
+/-- edits of a raw / buffer leaf -/
+theorem c20_raw_leaf (fxh : List HCall → Nat) (f f' : Bool) (t t' l l' : Text) (h : t ≠ t') :
+    (Src.raw f t l).calls fxh ≠ (Src.raw f' t' l').calls fxh ∧ (Src.rawBuf t l).calls fxh ≠ (Src.rawBuf t' l').calls fxh := by
+  constructor <;>
+  · intro e
+    simp only [Src.calls] at e
+    have := (hStr_inj _ _ _ _ e).2
+    exact h (hBytes_inj t t' [] [] (by simpa using this)).1
+
+/-- edits of the replacement set: any change that survives sorting (range, content, name, enforcement of a replacement, an
+added or removed replacement) changes the hasher input; the wrapped source may change too -/
+theorem c20_replacements (fxh : List HCall → Nat) (x x' : Src) (rs rs' : List Repl) (h : sortRepls rs ≠ sortRepls rs') :
+    (Src.replace x rs).calls fxh ≠ (Src.replace x' rs').calls fxh := by
+  intro e
+  simp only [Src.calls, List.append_assoc] at e
+  have e1 := (hStr_inj _ _ _ _ e).2
+  exact h (hRepls_inj _ _ _ _ (calls_noU32Head fxh x) (calls_noU32Head fxh x') e1).1
+
+/-- edits of a SourceMapSource: its text, any field of the attached map, the original source, any field of the inner map or
+the remove flag (the *name* is deliberately not hashed) -/
+theorem c20_source_map_source (fxh : List HCall → Nat) (t t' n n' : Text) (m m' : SMap) (o o' : Option Text) (i i' : Option SMap)
+    (r r' : Bool) (h : t ≠ t' ∨ m ≠ m' ∨ o ≠ o' ∨ i ≠ i' ∨ r ≠ r') :
+    (Src.sms t n m o i r).calls fxh ≠ (Src.sms t' n' m' o' i' r').calls fxh := by
+  intro e
+  simp only [Src.calls, List.append_assoc] at e
+  have e1 := (hStr_inj _ _ _ _ e).2
+  obtain ⟨ht, e2⟩ := hBytes_inj _ _ _ _ e1
+  have nb : ∀ (o : Option Text) (z : List HCall), NoBytesHead (hOpt hStr o ++ z) := by
+    intro o z b tl; cases o <;> simp [hOpt]
+  obtain ⟨hm, e3⟩ := hSMap_inj _ _ _ _ (nb _ _) (nb _ _) e2
+  obtain ⟨ho, e4⟩ := hOpt_hStr_inj _ _ _ _ e3
+  have hi : i = i' ∧ r = r' := by
+    cases i with
+    | none =>
+      cases i' with
+      | none => simp [hOpt] at e4; exact ⟨rfl, by cases r <;> cases r' <;> simp_all⟩
+      | some x => simp [hOpt] at e4
+    | some x =>
+      cases i' with
+      | none => simp [hOpt] at e4
+      | some x' =>
+        simp only [hOpt, List.cons_append, List.cons.injEq, true_and] at e4
+        have nb2 : ∀ (q : Bool), NoBytesHead [HCall.u8 (if q then 1 else 0)] := by intro q b tl; simp
+        obtain ⟨hx, e5⟩ := hSMap_inj _ _ _ _ (nb2 _) (nb2 _) e4
+        exact ⟨by rw [hx], by cases r <;> cases r' <;> simp_all⟩
+  rcases h with h | h | h | h | h
+  · exact h ht
+  · exact h hm
+  · exact h ho
+  · exact h hi.1
+  · exact h hi.2
+
+/-- a changed, added or removed child of a ConcatSource whose own hasher input differs (same surroundings) -/
+theorem c20_concat_child' (fxh : List HCall → Nat) (pre post : SrcList) (a b : Src) (h : a.calls fxh ≠ b.calls fxh) :
+    (Src.concat (pre.append (.cons a post))).calls fxh ≠ (Src.concat (pre.append (.cons b post))).calls fxh := by
+  intro e
+  simp only [Src.calls, SrcList.callsL_append, SrcList.callsL] at e
+  exact h (List.append_cancel_right (List.append_cancel_left (List.append_cancel_left e)))
+
+/-- … and such values compare unequal (contrapositive of `a == b ⇒ equal hasher input`) -/
+theorem c20_unequal (fxh : List HCall → Nat) (a b : Src) (h : a.calls fxh ≠ b.calls fxh) : a.eqv b = false := by
+  cases he : a.eqv b with
+  | false => rfl
+  | true => exact absurd (Src.eqv_calls fxh a b he) h
 
 end Rs
